@@ -282,3 +282,60 @@ int leak_found(char *what, size_t n)
 	snprintf(what, n, "%s|%s", g_leak_class, g_leak);
 	return 1;
 }
+
+/* ----------------------------------------------------- deep secret set */
+/* Recognise ephemeral secrets among the entropy draws of the two endpoints of
+ * connection 0.  A 32-byte draw counts as an ephemeral private key only if
+ * the public point it generates (computed with the library) appears on the
+ * wire from that node, so a wrong guess cannot create an alarm. */
+static int find_point_on_wire(const Pipe *p, const SM2_Z256_POINT *pt)
+{
+	uint8_t xy[64];
+	sm2_z256_point_to_bytes(pt, xy);
+	return p->sent_len >= 64 && memmem(p->sent, p->sent_len, xy, 64) != NULL;
+}
+
+void leak_deep_collect(const Plan *p)
+{
+	if (g_nconns < 1) return;
+	Conn *c = &g_conns[0];
+	SM2_KEY eph[2]; int have[2] = { 0, 0 };
+	for (int node = 0; node < 2; node++) {
+		Node *n = &g_sim.nodes[node];
+		const Pipe *out = &c->pipe[node == 0 ? DIR_C2S : DIR_S2C];
+		for (int i = 0; i < n->ndrawbytes; i++) {
+			if (n->drawbytes_len[i] == 46 && p->proto == P_TLCP && node == 0)
+				leak_add_secret("pre_master_secret", n->drawbytes[i], 46);
+			if (n->drawbytes_len[i] != 32 || have[node]) continue;
+			for (int form = 0; form < 2 && !have[node]; form++) {
+				sm2_z256_t d; SM2_KEY k;
+				if (form == 0) memcpy(d, n->drawbytes[i], 32);
+				else sm2_z256_from_bytes(d, n->drawbytes[i]);
+				if (sm2_key_set_private_key(&k, d) != 1) continue;
+				if (find_point_on_wire(out, &k.public_key)) {
+					uint8_t be[32];
+					sm2_z256_to_bytes(k.private_key, be);
+					leak_add_secret("ephemeral_private_key", be, 32);
+					leak_add_secret("ephemeral_private_key", n->drawbytes[i], 32);
+					eph[node] = k; have[node] = 1;
+				}
+			}
+		}
+	}
+	if (have[0] && have[1]) {
+		SM2_Z256_POINT sh; uint8_t xy[64];
+		if (sm2_do_ecdh(&eph[0], &eph[1].public_key, &sh) == 1) {
+			sm2_z256_point_to_bytes(&sh, xy);
+			leak_add_secret("ecdhe_shared_secret", xy, 32);
+		}
+	}
+	/* application plaintext an endpoint received */
+	for (int d = 0; d < 2; d++) {
+		Endpoint *rcv = &g_ep[d == DIR_C2S ? 1 : 0];
+		if (rcv->got[d] >= 32) {
+			uint8_t pl[64];
+			payload_fill(d, 0, pl, 64);
+			leak_add_secret("decrypted_plaintext", pl, rcv->got[d] >= 64 ? 64 : 32);
+		}
+	}
+}
